@@ -732,6 +732,9 @@ def gen_stats_query(rng, schema, ds, opts=None):
                         parts[3] = parts[3] + "X"
                         lead[0] = " ".join(parts)
                 lines += lead + rest
+                if rng.random() < 0.03 and table in AGG_COLS:
+                    # an aggregation inside a group is not a request: both sides have to refuse it
+                    lines[-1] = "Stats: %s %s" % (rng.choice(["sum", "avg", "min", "max"]), rng.choice(AGG_COLS[table]))
                 lines.append("%s: %d" % (op, nshared + rest_n))
                 if rng.random() < 0.12:
                     lines.append("StatsNegate:")
